@@ -33,7 +33,7 @@ def _dispatch(prop, t):
         fams = {"C05": ["combinators", "maps", "cases", "logging"], "C10": ["combinators", "options:light", "illsorted", "effparams", "selectors"], "C11": ["combinators", "options:light", "illsorted", "selectors"],
                 "C03": ["combinators", "options:light", "presets:light", "maps", "effparams", "selectors"], "C08": ["presets", "siblings"],
                 "C01": ["caching", "presets:light", "siblings"],
-                "C02": ["caching", "overloads"], "C06": ["combinators", "caching"], "C12": ["failing", "failing4", "cases"], "C16": ["caching@quick", "logging"], "C19": ["classes"], "C20": ["pickling"], "C18": ["combinators:light", "caching@quick", "logging"]}[prop]
+                "C02": ["caching", "overloads"], "C06": ["combinators", "caching"], "C12": ["failing", "failing4", "cases"], "C16": ["caching@quick", "logging", "logeffects"], "C19": ["classes"], "C20": ["pickling"], "C18": ["combinators:light", "caching@quick", "logging"]}[prop]
         import os
         if os.environ.get("VERIF_FAMILIES"):      # development aid: restrict a run to some families
             fams = os.environ["VERIF_FAMILIES"].split(",")
